@@ -83,6 +83,9 @@ def parse_records(payload):
         elif t[0] == "s":
             k = int(t[1])
             out.append(("s", [unhexf(x) for x in t[2:2 + k]], [unhexf(x) for x in t[2 + k:2 + 2 * k]]))
+        elif t[0] == "g":
+            k = int(t[1])
+            out.append(("g", [unhexf(x) for x in t[2:2 + k]], [unhexf(x) for x in t[2 + k:2 + 2 * k]]))
         elif t[0] == "v":
             out.append(("v", int(t[1]), int(t[2])))
         else:
@@ -95,7 +98,7 @@ def model_actions(acts, recs):
     Returns (term, expected_record_kinds)."""
     items = []
     ri = 0
-    recs = [r for r in recs if r[0] not in ("t", "o", "v", "f", "s")]
+    recs = [r for r in recs if r[0] not in ("t", "o", "v", "f", "s", "g")]
     for a in acts:
         k = a[0]
         if k == "new":
@@ -162,7 +165,7 @@ def parse_model_records(v):
 
 def records_agree(ri, rm, tol=TOL):
     """first disagreement index or None"""
-    ri = [r for r in ri if r[0] not in ("t", "o", "v", "f", "s")]
+    ri = [r for r in ri if r[0] not in ("t", "o", "v", "f", "s", "g")]
     n = max(len(ri), len(rm))
     for k in range(n):
         if k >= len(ri) or k >= len(rm):
